@@ -143,6 +143,10 @@ pub struct C09Case {
     /// another System has been created, run and stopped on this OS thread before
     #[serde(default)]
     pub prior_system: bool,
+    /// this many more (idle) arbiters are created after the early fates have been carried out,
+    /// i.e. after arbiters that were stopped early have been joined (their threads are gone)
+    #[serde(default)]
+    pub late: u8,
 }
 
 /// an earlier System on this very thread, run to completion
@@ -266,6 +270,21 @@ fn run_c09(c: &C09Case) -> CaseResult {
             }
             _ => {}
         }
+    }
+    // arbiters created once earlier ones are gone
+    for _ in 0..c.late % 3 {
+        let arb = Arbiter::new();
+        let flag = Arc::new(AtomicBool::new(false));
+        let g = DropFlag(flag.clone());
+        let ws = wrong_system.clone();
+        arb.spawn(async move {
+            let _g = g;
+            if System::current().id() != sys_id {
+                ws.store(true, Ordering::SeqCst);
+            }
+            std::future::pending::<()>().await;
+        });
+        slots.push(Slot { arb: Some(arb), parked_dropped: flag, fate: Fate::Idle });
     }
     // a long queue of commands behind a blocking one, in place when the stop is issued
     let backlog_ran = Arc::new(AtomicUsize::new(0));
@@ -431,6 +450,7 @@ fn run_c09(c: &C09Case) -> CaseResult {
     obs.label_if(matches!(from, StopFrom::ArbiterTask { .. }), "stop-from-arbiter");
     obs.label_if(matches!(from, StopFrom::Foreign), "stop-from-foreign-thread");
     obs.label_if(matches!(from, StopFrom::InsideBlockOn), "stop-inside-block_on");
+    obs.label_if(c.late % 3 > 0 && c.arbiters.iter().any(|f| matches!(f, Fate::StoppedJoined)), "arbiter-created-after-an-early-one-had-gone");
     obs.label_if(c.code != 0, "nonzero-code");
     obs.label_if(c.arbiters.iter().any(|f| matches!(f, Fate::BusyBacklog { .. })), "stop-behind-long-queue");
     obs.label_if(had_between, "arbiter-created-between-two-stops");
@@ -508,7 +528,12 @@ pub fn fresh_process_cases() -> Vec<C09Case> {
                 k /= 3;
             }
             for from in [StopFrom::SystemTask, StopFrom::Foreign] {
-                v.push(C09Case { arbiters: arbiters.clone(), from, code: if code % 2 == 0 { 0 } else { 7 }, second: None, plain_run: false, jitter: [0, 0, 0], arbiter_between: false, sys_rt: 0, prior_system: false });
+                v.push(C09Case { arbiters: arbiters.clone(), from, code: if code % 2 == 0 { 0 } else { 7 }, second: None, plain_run: false, jitter: [0, 0, 0], arbiter_between: false, sys_rt: 0, prior_system: false, late: 0 });
+            }
+            // an arbiter created after an early one has gone (ids, registry keys and thread names
+            // of a fresh process are small and predictable)
+            if arbiters.contains(&Fate::StoppedJoined) {
+                v.push(C09Case { arbiters: arbiters.clone(), from: StopFrom::SystemTask, code: 7, second: None, plain_run: false, jitter: [0, 0, 0], arbiter_between: false, sys_rt: 0, prior_system: false, late: 1 + (code % 2) as u8 });
             }
         }
     }
@@ -1135,12 +1160,14 @@ pub mod gen {
             prop::bool::weighted(0.3),
         )
             .prop_map(|(arbiters, from, code, second, plain_run, jitter, arbiter_between, sys_rt, prior_system)| {
+                // (derived, so that the tuple stays within proptest's arity)
+                let late = if jitter[0] % 3 == 0 { 1 + (jitter[1] % 2) as u8 } else { 0 };
                 // a sequenced second stop with the same code cannot be told apart
                 let second = match second {
                     Some(Second::Sequenced { code: c2 }) if c2 == code => Some(Second::Sequenced { code: code.wrapping_add(5) }),
                     s => s,
                 };
-                C09Case { arbiters, from, code, second, plain_run, jitter, arbiter_between, sys_rt, prior_system }
+                C09Case { arbiters, from, code, second, plain_run, jitter, arbiter_between, sys_rt, prior_system, late }
             })
     }
 
